@@ -87,6 +87,8 @@ def _check_all_dags(U, out, family, case, rec, key):
         rec.exception_violation("C07:all_dags-exception", family, case, "all_dags raised %s" % type(e).__name__, e)
         return want
     rec.count("all_dags:empty" if not want else ("all_dags:multi" if len(want) > 1 else "all_dags:single"))
+    if want and (sum(out) + len(out)) % 4 == 0:
+        _gc.repeat_after_overwrite(rec, family, case, "C07", "all_dags", U.all_dags, (gmat.to_np(out),), res)
     rec.max("all_dags:max-extensions", len(want))
     diff = _gc.compare_sets(lst, got, want)
     if diff:
@@ -147,6 +149,8 @@ def _check_mec(U, out, family, case, rec, key, A=None, chain_variants=(True,)):
             rec.exception_violation("C07:mec-exception", family, case, "mec raised %s" % type(e).__name__, e)
             continue
         rec.count("mec:calls")
+        if cc is True and (sum(out) + len(out)) % 4 == 1:
+            _gc.repeat_after_overwrite(rec, family, case, "C07", "mec", U.mec, (np.array(A, copy=True),), res)
         diff = _gc.compare_sets(lst, got, want)
         if diff:
             rec.violation("C07:mec-%s%s" % (diff["kind"], "" if cc else "-general-path"), family, case,
@@ -155,6 +159,8 @@ def _check_mec(U, out, family, case, rec, key, A=None, chain_variants=(True,)):
 
 
 def setup(rec):
+    G.self_check()
+    rec.count("oracle:self-check-passed")
     # oracle self-check, reported in the evidence
     for p in (3, 4):
         rec.add("oracle:dags/classes", "p=%d: %d DAGs in %d classes" % (p, len(G.all_dag_codes(p)), len(G.class_table(p))))
